@@ -89,6 +89,12 @@ type c13Case struct {
 func (c *c13Case) real() bool { return c.mode&1 == 1 }
 func (c *c13Case) slow() int  { return int(c.mode>>1) & 7 }
 
+// bulk (mode bit 16, harness only): the GUI side writes every run of lines that need no waiting (no
+// guard to wait for, no delay) with ONE Write call, the way `engine < script` or a GUI flushing a batch
+// of commands does - several kilobytes of commands are then queued in the pipe while the driver works
+// through them (seeded change C13-G aliased the scanner's buffer: only visible when input is queued).
+func (c *c13Case) bulk() bool { return c.mode&16 != 0 }
+
 // c13PvLen is the number of moves in the principal variation of the k-th info line of a mock
 // search with the gfLong flag (5 bytes per move: 190 .. 1150 bytes, and short lines in between).
 func c13PvLen(c, k int64) int {
@@ -158,6 +164,9 @@ var c13IdleText = []string{
 	"position fen 7k/8/4Q1K1/8/8/8/8/8 w - - 94 80",              // Qf7 stalemates, Qe8 mates
 	"position fen 6k1/5ppp/8/8/8/8/8/R5K1 w - - 90 60",           // mate in one
 	"position fen 7k/5Q2/6K1/8/8/8/8/8 b - - 93 70",              // stalemate: no legal move
+	// long command lines (2 kB and 6 kB): the start position shuffled back and forth (a final root: repeated)
+	"position startpos moves" + strings.Repeat(" g1f3 g8f6 f3g1 f6g8", 100),
+	"position startpos moves" + strings.Repeat(" b1c3 b8c6 c3b1 c6b8 g1f3 g8f6 f3g1 f6g8", 150),
 }
 
 const c13NearFinal = 8 // first near-final root in c13IdleText
@@ -502,7 +511,22 @@ func c13RunCase(c *c13Case) *c13Obs {
 	// the GUI
 	stuck := false
 	goSent := 0
+	var batch []byte // bulk mode: lines collected for one Write
+	flush := func() bool {
+		if len(batch) == 0 {
+			return true
+		}
+		_, err := inW.Write(batch)
+		batch = batch[:0]
+		return err == nil
+	}
 	for _, l := range c.lines {
+		if c.bulk() && (l.delay > 0 || (l.guarded() && goSent > 0)) {
+			// this line has to wait: what was collected goes out first
+			if !flush() {
+				break
+			}
+		}
 		if l.guarded() {
 			// wait for the bestmove of every go sent so far
 			t := time.AfterFunc(c13Deadline, func() { sink.mu.Lock(); sink.cond.Broadcast(); sink.mu.Unlock() })
@@ -528,10 +552,15 @@ func c13RunCase(c *c13Case) *c13Obs {
 		if l.code == c13Go {
 			goSent++
 		}
+		if c.bulk() {
+			batch = append(batch, l.text()+"\n"...)
+			continue
+		}
 		if _, err := inW.Write([]byte(l.text() + "\n")); err != nil {
 			break // the driver is gone (stdin closed on its side): nothing more to send
 		}
 	}
+	flush()
 	if c.tail > 0 && !stuck {
 		time.Sleep(time.Duration(c.tail) * unit)
 	}
@@ -958,6 +987,20 @@ func c13Input(c *c13Case, sweep string) hx.Input {
 	if c.slow() != 0 {
 		tags = append(tags, "stdout:slow-consumer")
 	}
+	if c.bulk() {
+		nb := 0
+		for _, l := range c.lines {
+			nb += len(l.text()) + 1
+		}
+		switch {
+		case nb >= 8192:
+			tags = append(tags, "stdin:bulk>=8k")
+		case nb >= 4096:
+			tags = append(tags, "stdin:bulk>=4k")
+		default:
+			tags = append(tags, "stdin:bulk<4k")
+		}
+	}
 	for _, l := range c.lines {
 		if l.code == c13Go && l.a&gfLong != 0 {
 			tags = append(tags, "info:long-lines")
@@ -1116,10 +1159,70 @@ func genC13(rng *hx.Rng, n int, tier string, emit func(hx.Input)) {
 		}
 		emit(c13Input(c, "back-to-back"))
 	}
+	// bulk input: hundreds of commands (4..30 kB) handed to the driver in a few large writes - a script
+	// piped in, a GUI flushing its queue; long position lines right behind short commands; every
+	// isready must still get its readyok, every go its bestmove. Mock search; 8 % of the cases.
+	for j := 0; j < (n+11)/12 && c13Stuck < 4 && c13Crashes < 40; j, cnt = j+1, cnt+1 {
+		c := &c13Case{mode: 16, unit: 100}
+		if rng.Chance(0.2) {
+			c.mode += 2 * int64(1+rng.Intn(3))
+		}
+		if rng.Chance(0.4) {
+			c.lines = append(c.lines, c13Line{code: c13Uci})
+		}
+		long := int64(len(c13IdleText) - 1 - rng.Intn(2))
+		burst := func(k int) {
+			for ; k > 0; k-- {
+				switch r := rng.Intn(20); {
+				case r < 11:
+					c.lines = append(c.lines, c13Line{code: c13Isready})
+				case r < 14:
+					c.lines = append(c.lines, c13Line{code: c13Nop, c: int64(rng.Intn(2))})
+				case r < 15:
+					c.lines = append(c.lines, c13Line{code: c13Stop}) // nothing to stop
+				default:
+					c.lines = append(c.lines, c13Line{code: c13Isready}) // after a search: still unguarded
+				}
+			}
+		}
+		idle := func(k int) {
+			for ; k > 0; k-- {
+				switch r := rng.Intn(20); {
+				case r < 9:
+					c.lines = append(c.lines, c13Line{code: c13Isready})
+				case r < 11:
+					c.lines = append(c.lines, c13Line{code: c13Nop, c: int64(rng.Intn(2))})
+				case r < 13:
+					c.lines = append(c.lines, c13Line{code: c13Idle, c: long})
+				case r < 14:
+					c.lines = append(c.lines, c13Line{code: c13SetPonder, a: int64(rng.Intn(2))})
+				default:
+					c.lines = append(c.lines, c13Line{code: c13Idle, c: int64(rng.Intn(len(c13IdleText) - 2))})
+				}
+			}
+		}
+		idle(40 + rng.Intn(300))
+		for g := rng.Intn(3); g > 0; g-- {
+			gl := c13Line{code: c13Go, a: gfAck | gfSelffin, c: 1 + 16*int64(1+rng.Intn(5)), b: int64(rng.Intn(3)), dur: int64(rng.Intn(3))}
+			c.lines = append(c.lines, gl)
+			burst(5 + rng.Intn(60))
+			if rng.Chance(0.5) {
+				c.lines = append(c.lines, c13Line{code: c13Stop})
+				burst(rng.Intn(20))
+			}
+			if g > 1 || rng.Chance(0.6) {
+				idle(10 + rng.Intn(120)) // guarded lines: sent once the bestmove was seen, again in one piece
+			}
+		}
+		if rng.Chance(0.6) {
+			c.lines = append(c.lines, c13Line{code: c13Quit})
+		}
+		emit(c13Input(c, "bulk"))
+	}
 	// congested output: a slow consumer of stdout, a search that prints many info lines of very
 	// different lengths at once (the output channel fills, the search blocks in the middle of its
 	// burst), and a burst of isready meanwhile (the interrupter queues on the same channel)
-	for ; cnt < 9*n/20 && c13Stuck < 4 && c13Crashes < 40; cnt++ {
+	for ; cnt < 11*n/20 && c13Stuck < 4 && c13Crashes < 40; cnt++ {
 		c := &c13Case{mode: 2 * int64(1+rng.Intn(3)), unit: []int64{100, 300}[rng.Intn(2)], tail: int64(rng.Intn(3))}
 		if rng.Chance(0.3) {
 			c.lines = append(c.lines, c13Line{code: c13Uci})
